@@ -12,8 +12,11 @@ ID = "C20"
 LEVEL = "exploration"
 RULE = (
     "Hypothesis draws ordinary networks (no repeated label inside a tensor; "
-    "every label on >=2 tensors or in the output; hyper labels, batch "
-    "outputs, disconnected parts allowed) x random tree x order in {dfs, "
+    "hyper labels, batch outputs, disconnected parts allowed; in 3/4 of the "
+    "cases every label is on >=2 tensors or in the output, the rest may have "
+    "labels on a single tensor that are summed: there the equalities are the "
+    "open known finding dangling_label_not_presummed and only the "
+    "monotonicity in chi is asserted) x random tree x order in {dfs, "
     "surface_order, callable} x compress_late x chi in {1,2,4,16,huge}. "
     "Oracle at chi=huge AND at chi = the largest bond that arises (computed by "
     "an own simulation: nothing is truncated at either): flops == CostRef total flops; max_size == max("
@@ -46,11 +49,35 @@ def make_ordinary(net):
     return net
 
 
+def dangling_labels(net):
+    cnt = {}
+    for t in net["inputs"]:
+        for ix in t:
+            cnt[ix] = cnt.get(ix, 0) + 1
+    return sorted(ix for ix, c in cnt.items() if c == 1 and ix not in net["output"])
+
+
+def known_dangling(spec, v):
+    """Open finding: with a label on exactly one tensor and not in the output the
+    exact figures assume its documented pre-summation, the compressed
+    simulation starts from the raw inputs: the 'nothing truncated' equalities
+    fail (only those; the monotonicity in chi is still asserted)."""
+    return (
+        spec.get("kind") == "stats"
+        and bool(dangling_labels(spec["net"]))
+        and ("!= exact flops" in v or "!= largest tensor" in v or "!= exact write" in v)
+    )
+
+
+KNOWN = {"dangling_label_not_presummed": known_dangling}
+
+
 @st.composite
 def stat_cases(draw):
-    net = make_ordinary(
-        draw(gen.networks(min_n=2, max_n=9, allow_repeat=False, volume_limit=2**60, max_dim=5))
-    )
+    net = draw(gen.networks(min_n=2, max_n=9, allow_repeat=False, volume_limit=2**60, max_dim=5))
+    if draw(st.integers(0, 3)) != 0:
+        # three quarters of the cases: every label on >= 2 tensors or in the output
+        net = make_ordinary(net)
     return {
         "kind": "stats",
         "net": net,
@@ -162,6 +189,8 @@ def run_stats(spec):
             break
     cls = sorted(gen.net_classes(net) & {"hyper", "disconnected", "batch_output", "scalar"})
     cls += ["kind=stats", f"order={spec['order']}", f"late={late}"]
+    if dangling_labels(net):
+        cls.append("dangling_label")
     maxbond = max(sizes.values(), default=1)
     nontrivial = n >= 4 and ("hyper" in cls or maxbond > 2)
     return Outcome(viol, nontrivial, cls)
